@@ -77,6 +77,11 @@ pub struct Scenario {
     /// hold it: direct replication addresses exactly the live peers
     #[serde(default)]
     pub probe_direct: bool,
+    /// real-membership mode: nodes that are still down when the faults stop are judged as
+    /// departures first (every running node's layer and subscriber must drop them, bounded wait)
+    /// and only then started again
+    #[serde(default)]
+    pub judge_departure: bool,
 }
 
 pub struct C01;
@@ -319,6 +324,24 @@ pub fn run_cluster(sc: &Scenario, prop: &str) -> Result<RunResult, String> {
                 cl.sim.release(ha.clone(), hb);
             }
         }
+    }
+    if real && sc.judge_departure && !crashed.is_empty() {
+        // nodes that are gone: every running node's membership layer has to drop them (bounded
+        // wait), and what its subscriber added up has to follow
+        let gone = wait_membership_complete(&mut cl, 240_000)?;
+        membership_diffs.extend(membership_sums(&mut cl, "while nodes were down", &mut out)?);
+        if !gone {
+            let want: BTreeMap<u8, SocketAddr> = {
+                let sh = cl.shared.borrow();
+                sh.up.iter().filter_map(|n| sh.addrs.get(n).map(|a| (*n, *a))).collect()
+            };
+            for (n, v) in layer_views(&cl) {
+                if v != want {
+                    membership_stale.push(format!("while nodes {:?} were down: node {n} reports {:?} but the running nodes are {:?}", crashed, v, want));
+                }
+            }
+        }
+        out.fault("node_gone_until_the_faults_stop");
     }
     for n in crashed.clone() {
         cl.restart(n);
@@ -887,7 +910,7 @@ pub fn gen_cluster_scenario(rng: &mut rand::rngs::SmallRng, k: &GenKnobs) -> Sce
     }
     events.sort_by_key(|e| e.t());
     let closing_mode = if !explicit_only && rng.gen_bool(0.5) { "background" } else { "explicit" };
-    Scenario { cfg, events, closing_seed: rng.gen(), closing_parallel: rng.gen_bool(0.4), settle_ms: if rng.gen_bool(0.5) { 0 } else { rng.gen_range(0..2_500) }, closing_mode: closing_mode.to_string(), probe_direct: false }
+    Scenario { cfg, events, closing_seed: rng.gen(), closing_parallel: rng.gen_bool(0.4), settle_ms: if rng.gen_bool(0.5) { 0 } else { rng.gen_range(0..2_500) }, closing_mode: closing_mode.to_string(), probe_direct: false, judge_departure: false }
 }
 
 /// "Burst" family: a node whose direct replication reaches nobody (its view is empty) issues
@@ -1007,7 +1030,7 @@ pub fn gen_burst_scenario(rng: &mut rand::rngs::SmallRng) -> Scenario {
         }
     }
     events.sort_by_key(|e| e.t());
-    Scenario { cfg, events, closing_seed: rng.gen(), closing_parallel: false, settle_ms: 0, closing_mode: "background".to_string(), probe_direct: false }
+    Scenario { cfg, events, closing_seed: rng.gen(), closing_parallel: false, settle_ms: 0, closing_mode: "background".to_string(), probe_direct: false, judge_departure: false }
 }
 
 /// "Real membership" family: every node is built with the public API alone
@@ -1078,12 +1101,23 @@ pub fn gen_real_scenario(rng: &mut rand::rngs::SmallRng) -> Scenario {
             events.push(Ev::Release { t: t + d, a, b });
         }
     }
+    let mut stays_down = false;
     if rng.gen_bool(0.5) {
         let node = *ids.choose(rng).unwrap();
         let t = rng.gen_range(500..span);
         let back = t + if rng.gen_bool(0.5) { rng.gen_range(200..5_000) } else { rng.gen_range(20_000..60_000) };
         events.push(Ev::Crash { t, node });
-        if rng.gen_bool(0.6) {
+        stays_down = rng.gen_bool(0.3);
+        if stays_down {
+            // the node is gone until the faults stop (it is judged as a departure, then started
+            // again); half of the time every node but one goes, so that a node is left on its own
+            if rng.gen_bool(0.5) {
+                let keep = *ids.iter().filter(|x| **x != node).collect::<Vec<_>>().choose(rng).unwrap();
+                for other in ids.iter().filter(|x| **x != node && *x != keep) {
+                    events.push(Ev::Crash { t: rng.gen_range(500..span), node: *other });
+                }
+            }
+        } else if rng.gen_bool(0.6) {
             // comes back under a new address: a new identity for the gossip layer
             events.push(Ev::Move { t: back, node });
         } else {
@@ -1091,7 +1125,7 @@ pub fn gen_real_scenario(rng: &mut rand::rngs::SmallRng) -> Scenario {
         }
         // peers that re-dial while the node is starting up: earlier mutations re-sent over fresh
         // connections in the first moments after the (re)start
-        if rng.gen_bool(0.6) {
+        if !stays_down && rng.gen_bool(0.6) {
             for _ in 0..rng.gen_range(3..=14) {
                 let from = *ids.choose(rng).unwrap();
                 if from != node {
@@ -1109,7 +1143,7 @@ pub fn gen_real_scenario(rng: &mut rand::rngs::SmallRng) -> Scenario {
         events.push(Ev::ClockJump { t: rng.gen_range(0..span), node: *ids.choose(rng).unwrap(), delta_ms: rng.gen_range(-120_000..120_000) });
     }
     events.sort_by_key(|e| e.t());
-    Scenario { cfg, events, closing_seed: rng.gen(), closing_parallel: false, settle_ms: 0, closing_mode: "background".to_string(), probe_direct: false }
+    Scenario { cfg, events, closing_seed: rng.gen(), closing_parallel: false, settle_ms: 0, closing_mode: "background".to_string(), probe_direct: false, judge_departure: stays_down }
 }
 
 /// "Big join": one node holds more documents in one keyspace than a single fetch carries
@@ -1131,7 +1165,7 @@ pub fn gen_big_join_scenario(rng: &mut rand::rngs::SmallRng) -> Scenario {
     };
     // a little traffic so that the case is not empty
     let events = vec![Ev::Op { t: 500, node: 2, spec: OpSpec { kind: "put".to_string(), ks: "small".to_string(), ids: vec![1], level: "None".to_string(), dup: false, empty: false } }];
-    Scenario { cfg, events, closing_seed: rng.gen(), closing_parallel: false, settle_ms: 0, closing_mode: "background".to_string(), probe_direct: false }
+    Scenario { cfg, events, closing_seed: rng.gen(), closing_parallel: false, settle_ms: 0, closing_mode: "background".to_string(), probe_direct: false, judge_departure: false }
 }
 
 pub fn cluster_components() -> Vec<(&'static str, &'static str)> {
@@ -1229,7 +1263,7 @@ impl Check for C01 {
         "E2 cluster engine: 2-5 complete nodes as turmoil hosts (real store, RPC stack, clock, selector, membership watcher) over simulated TCP; SimStorage outside the hosts; harness-owned membership views"
     }
     fn rule(&self) -> &'static str {
-        "Cases: 2-5 nodes in 1-3 data centres, optional wall-clock skew up to +-10 min, 5-40 put/put_many/del/del_many at seeded nodes and times (a quarter aligned with the distributor's 1 s batch tick) with all eight consistency levels on 1-3 keyspaces and 1-6 ids (so writers collide); a seeded subset of fault kinds per run: link hold/release, node crash/restart with lagging or missing death/return notices at peers, a node coming back on another IP address (peers learn it as left+joined in one membership change), partial membership views (peers that get no batches), replayed replication messages (duplicate, late, reordered direct messages), clock jumps, storage failures and latency, cooperative delays at the two halves of a repair / keyspace creation / batch execution / between timestamping and local apply; background poller on (1-6 s) or off. Then quiescence is constructed (links released, nodes restarted and re-announced, views completed, all calls returned) and every node runs the real repair path (poll_keyspace -> get_state -> Diff -> MultiDel/fetch_docs+MultiSet) against every other node, in seeded order, optionally two at a time, each until the tracker reports nothing unsynced. Oracle: every node's store holds exactly the last-writer-wins live documents (id, bytes, timestamp) computed from the operations captured at their issuers' stores. Non-trivial = two origins wrote one (keyspace, id) AND at least one fault fired. Distinct = hash of all nodes' ordered storage-call sequences. Real-membership family (1 case in 8): 2-4 nodes built with DatacakeNodeBuilder::connect + EventuallyConsistentStoreExtension alone; membership is whatever the gossip layer (vendored, virtual time, seeded) reports over the simulated network; 4-24 operations over 8-90 s; link holds either short or 25-70 s (long enough for the failure detector to declare the peer dead and the store to drop and re-create its pollers), crash + restart on the same or another address, earlier mutations re-sent over fresh connections in the first 700 ms after a (re)start, slow start-up scans, clock jumps. After the faults the harness waits (bounded, 240 simulated s) until every node's membership layer reports every running node, then gives the nodes' own replication cycles 14 simulated s; if the layer does not re-admit somebody the exchanges are driven explicitly instead."
+        "Cases: 2-5 nodes in 1-3 data centres, optional wall-clock skew up to +-10 min, 5-40 put/put_many/del/del_many at seeded nodes and times (a quarter aligned with the distributor's 1 s batch tick) with all eight consistency levels on 1-3 keyspaces and 1-6 ids (so writers collide); a seeded subset of fault kinds per run: link hold/release, node crash/restart with lagging or missing death/return notices at peers, a node coming back on another IP address (peers learn it as left+joined in one membership change), partial membership views (peers that get no batches), replayed replication messages (duplicate, late, reordered direct messages), clock jumps, storage failures and latency, cooperative delays at the two halves of a repair / keyspace creation / batch execution / between timestamping and local apply; background poller on (1-6 s) or off. Then quiescence is constructed (links released, nodes restarted and re-announced, views completed, all calls returned) and every node runs the real repair path (poll_keyspace -> get_state -> Diff -> MultiDel/fetch_docs+MultiSet) against every other node, in seeded order, optionally two at a time, each until the tracker reports nothing unsynced. Oracle: every node's store holds exactly the last-writer-wins live documents (id, bytes, timestamp) computed from the operations captured at their issuers' stores. Non-trivial = two origins wrote one (keyspace, id) AND at least one fault fired. Distinct = hash of all nodes' ordered storage-call sequences. Real-membership family (1 case in 8): 2-4 nodes built with DatacakeNodeBuilder::connect + EventuallyConsistentStoreExtension alone; membership is whatever the gossip layer (vendored, virtual time, seeded) reports over the simulated network; 4-24 operations over 8-90 s; link holds either short or 25-70 s (long enough for the failure detector to declare the peer dead and the store to drop and re-create its pollers), crash + restart on the same or another address (three crashes in ten last until the faults stop, half of those taking every node but one; the departure is judged first, then the nodes come back), earlier mutations re-sent over fresh connections in the first 700 ms after a (re)start, slow start-up scans, clock jumps. After the faults the harness waits (bounded, 240 simulated s) until every node's membership layer reports every running node, then gives the nodes' own replication cycles 14 simulated s; if the layer does not re-admit somebody the exchanges are driven explicitly instead."
     }
     fn assumptions(&self) -> Vec<String> {
         vec![
@@ -1285,7 +1319,7 @@ impl Check for C01 {
             let class = "C01/keyspace-changed-without-a-new-change-timestamp";
             let mut out = crate::e1::c02::execute_scenario_with(&sc, "C01-single-node", Some(class));
             // set/store agreement is C02's subject
-            out.violations.retain(|v| v.class == class || v.class.contains("/panic@"));
+            out.violations.retain(|v| v.class.starts_with("C01/") || v.class.contains("/panic@"));
             out.probe("single_node_advertising_arm_case");
             return out;
         }
